@@ -89,17 +89,13 @@ theorem C18.halfcomplex_shape_roundtrip (n : Nat) (hn : 1 ≤ n) :
   unfold irLen hcLen
   rcases Nat.mod_two_eq_zero_or_one n with h | h <;> simp [h] <;> omega
 
-/-- **Finding (model of the defect).**  `DiscreteFourierTransformInverse._call_numpy` calls
-`np.fft.irfftn(x, axes)` without `s`; NumPy then produces `2(m-1)` points, which equals the
-range length `n` only for even `n`. -/
-theorem C18.dft_inverse_numpy_halfcomplex_len_partial (n : Nat) (hn : 1 ≤ n) :
-    irLenNumpyDefault (hcLen n) = n ↔ n % 2 = 0 := by
-  unfold irLenNumpyDefault hcLen; omega
-
-/-- Proved counterexample on the model: for every odd length the NumPy half-complex inverse
-DFT produces an array one short of the range (the real code raises `ValueError`). -/
-theorem C18.dft_inverse_numpy_halfcomplex_odd_fails (m : Nat) :
-    irLenNumpyDefault (hcLen (2*m+1)) ≠ 2*m+1 := by
+/-- Sensitivity (why `s=` must be passed to `np.fft.irfftn`, as the repaired
+`DiscreteFourierTransformInverse._call_numpy` and `FourierTransformInverse` do): NumPy's
+default output length `2(m-1)` restores `n` exactly for even `n`; for every odd length it is
+one short. -/
+theorem C18.irfftn_without_s_loses_odd_length (n : Nat) (hn : 1 ≤ n) :
+    (irLenNumpyDefault (hcLen n) = n ↔ n % 2 = 0) ∧
+    (n % 2 = 1 → irLenNumpyDefault (hcLen n) + 1 = n) := by
   unfold irLenNumpyDefault hcLen; omega
 
 /-- `realspace_grid (reciprocal_grid g) = g`: the shape is restored (with the parity of
@@ -241,49 +237,36 @@ theorem C18.halfcomplex_roundtrip {K : Type} [Field K] (σ : K →+* K) (w : K) 
   unfold npIrfft npIfft
   rw [dftSum_eq, dftSum_eq, Finset.sum_congr rfl hext]
 
-/-! ## Findings on the plain DFT operators (the model follows the code) -/
+/-! ## Constructor and planner of the plain DFT operators -/
 
-/-- The range computed by the constructor fits the produced array unless `halfcomplex=True`
-is passed for a COMPLEX domain. -/
-theorem C18.dft_range_matches_output_partial (n : Nat) (complexDom hcArg : Bool)
-    (h : ¬ (complexDom = true ∧ hcArg = true)) :
-    dftRangeLenCoded n hcArg = dftOutLen n complexDom hcArg := by
+/-- The range built by the constructor always fits the array the transform produces: for
+real and complex domains, with and without the `halfcomplex` argument (on complex domains the
+argument has no effect, as documented), every length. -/
+theorem C18.dft_range_matches_output (n : Nat) (complexDom hcArg : Bool) :
+    dftRangeLen n complexDom hcArg = dftOutLen n complexDom hcArg := by
   cases complexDom <;> cases hcArg <;>
-    simp_all [dftRangeLenCoded, dftOutLen, dftHalfcomplexFlag, recipGrid]
+    simp [dftRangeLen, dftOutLen, dftHalfcomplexFlag, recipGrid]
 
-/-- Counterexample on the model (finding F18b): complex domain with `halfcomplex=True`
-(documented "no effect"): for every `n ≥ 3` the range is shorter than the produced array. -/
-theorem C18.dft_range_complex_halfcomplex_fails (n : Nat) (hn : 3 ≤ n) :
-    dftRangeLenCoded n true ≠ dftOutLen n true true := by
-  simp [dftRangeLenCoded, dftOutLen, dftHalfcomplexFlag, recipGrid, hcLen]; omega
+/-- Sensitivity: computing the range from the `halfcomplex` ARGUMENT (the code before the
+repair) is wrong exactly on complex domains: for every `n ≥ 3` the range is too short. -/
+theorem C18.dft_range_old_complex_halfcomplex_fails (n : Nat) (hn : 3 ≤ n) :
+    dftRangeLenOld n true ≠ dftOutLen n true true := by
+  simp [dftRangeLenOld, dftOutLen, dftHalfcomplexFlag, recipGrid, hcLen]; omega
 
-/-- The pyfftw inverse of the plain DFT is well defined unless the range is real and
-`halfcomplex` is off. -/
-theorem C18.dft_inverse_pyfftw_status_partial (fftw realRan hc plus : Bool) (n : Nat)
-    (h : ¬ (fftw = true ∧ realRan = true ∧ hc = false)) :
-    dftInverseStatus fftw realRan hc plus n = none := by
-  cases fftw <;> cases realRan <;> cases hc <;> simp_all [dftInverseStatus]
+/-- `pyfftw_call` never creates a destroying plan on the array that holds the data: the data
+survives planning for every input kind, plan state and planner. -/
+theorem C18.pyfftw_planning_preserves_data (fresh destroys : Bool) :
+    dataSurvivesPlanning fresh destroys = true := by
+  cases fresh <;> cases destroys <;> simp [dataSurvivesPlanning, planOnDataArray, mustCopy]
 
-/-- Counterexample on the model (finding F18c): real range, no halfcomplex, pyfftw: the
-inverse raises for every last-axis length `n ≥ 3` and both signs. -/
-theorem C18.dft_inverse_pyfftw_real_fails (plus : Bool) (n : Nat) (hn : 3 ≤ n) :
-    dftInverseStatus true true false plus n = some (some "err:value") := by
-  have : ¬ (n / 2 + 1 = n) := by omega
-  simp [dftInverseStatus, hcLen, this]
-
-/-- `pyfftw_call` keeps the data intact while planning whenever the input was not cast to
-complex first (complex input, or half-complex real input), for every planner. -/
-theorem C18.pyfftw_planning_preserves_data_partial (realIn hc fresh destroys : Bool)
-    (h : ¬ (realIn = true ∧ hc = false)) :
-    dataSurvivesPlanning realIn hc fresh destroys = true := by
+/-- Sensitivity: with the old guard (`… and not array_in_copied`) real input without
+halfcomplex, a fresh plan and a destroying planner (`FFTW_MEASURE`, the default of the DFT
+operators) lose the data; all other combinations were safe. -/
+theorem C18.pyfftw_planning_old_guard_destroys_real_input (realIn hc fresh destroys : Bool) :
+    dataSurvivesPlanningOld realIn hc fresh destroys = false ↔
+      (realIn = true ∧ hc = false ∧ fresh = true ∧ destroys = true) := by
   cases realIn <;> cases hc <;> cases fresh <;> cases destroys <;>
-    simp_all [dataSurvivesPlanning, planOnDataArray, mustCopy, arrayInCopied]
-
-/-- Counterexample on the model (finding F18d): real input without halfcomplex, a fresh plan
-and a destroying planner (`FFTW_MEASURE`, the default of the DFT operators): the plan is
-created on the array that holds the data. -/
-theorem C18.pyfftw_planning_destroys_real_input_fails :
-    dataSurvivesPlanning true false true true = false := by decide
+    simp [dataSurvivesPlanningOld, planOnDataArrayOld, mustCopy, arrayInCopied]
 
 /-! ## Phases of the continuous transform (`dft_preprocess_data`, `dft_postprocess_data`) -/
 
@@ -362,27 +345,24 @@ theorem C18.pre_factor_not_real_of_no_shift (n : Nat) (hn : 2 ≤ n) (plus : Boo
     have h' : 1 - (n : Int) = z * n := by exact_mod_cast h
     rcases le_or_gt z (-1) with hz0 | hz0 <;> nlinarith
 
-/-- The forward and inverse continuous transforms run on both back-ends whenever every
-transformed axis is shifted (real or complex data, half-complex or not; `halfcomplex` is
-only ever set on real spaces). -/
-theorem C18.ft_status_all_shifted_partial (fftw real hc : Bool) (shifts : List Bool)
-    (h : shifts.all id = true) (hreal : hc = true → real = true) :
-    ftForwardStatus fftw real hc shifts = none ∧ ftInverseStatus fftw real hc shifts = none := by
+/-- The forward and inverse continuous transforms run on both back-ends for every shift
+pattern on complex spaces and on real spaces without `halfcomplex`, and with `halfcomplex`
+whenever every transformed axis is shifted (`halfcomplex` is only ever set on real spaces). -/
+theorem C18.ft_status_partial (fftw real hc : Bool) (shifts : List Bool)
+    (h : hc = true → shifts.all id = true) (hreal : hc = true → real = true) :
+    ftForwardStatus fftw real hc shifts = none ∧ ftInverseStatus hc shifts = none := by
   cases fftw <;> cases real <;> cases hc <;>
     simp_all [ftForwardStatus, ftInverseStatus, preprocComplex]
 
-/-- Counterexamples on the model (findings F18e, F18f): a non-shifted axis next to the halved
-one breaks the half-complex transform (NumPy forward runs but on data whose imaginary part
-was dropped — see `pre_factor_not_real_of_no_shift`; pyfftw forward asserts; both inverses
-raise), and any non-shifted axis breaks the pyfftw inverse on a real space. -/
-theorem C18.ft_status_mixed_shift_fails :
+/-- Counterexample on the model (open finding F18e): a non-shifted axis next to the halved
+one breaks the half-complex transform — the NumPy forward runs, but on data whose imaginary
+part was dropped (see `pre_factor_not_real_of_no_shift`); the pyfftw forward asserts; both
+inverses raise. -/
+theorem C18.ft_halfcomplex_mixed_shift_fails :
     preprocComplex true [false, true] = true ∧
     ftForwardStatus false true true [false, true] = none ∧
     ftForwardStatus true true true [false, true] = some "err:assert" ∧
-    ftInverseStatus false true true [false, true] = some "err:cast" ∧
-    ftInverseStatus true true true [false, true] = some "err:cast" ∧
-    ftInverseStatus true true false [false] = some "err:cast" ∧
-    ftInverseStatus false true false [false] = none := by decide
+    ftInverseStatus true [false, true] = some "err:cast" := by decide
 
 /-- **The inverse's factors cancel the forward's** (`FourierTransformInverse`: division by
 the kernel and phase with the flipped sign; `dft_preprocess_data` with the flipped sign):
